@@ -20,7 +20,7 @@ MANIFEST = dict(
          'values, cancels, switches, ready-callback order shuffled) against the model driver - every GeckoConfig member after each '
          'switch, the wake time of every sleeper, the state of the shared future - plus the facade rule on real GeckoPump / '
          'GeckoBlower / GeckoAsyncFacade objects; direct monitors on the real code with timer jitter on.'
-         ' Since session 3: the facade rule is exercised on facades built by the real constructor, observing the live table (with the opposite table installed beforehand), and over histories of real facades (reconnect with a pump running, external mode switch, ticks). config_change_state_inventory: the facade keeps no remembered mode. Device changes arrive as misaligned 2-byte words and refresh segments. Session 5: device_change_reaches_the_facade_whatever_happened_before (the notification walk keeps no memory); real-facade histories in which a client callback watching a pump or blower fails once - everything afterwards must still switch the table. A run on the virtual loop in which nothing is runnable and no timer is pending is reported as a verdict (Deadlock), not a hung check.',
+         ' Since session 3: the facade rule is exercised on facades built by the real constructor, observing the live table (with the opposite table installed beforehand), and over histories of real facades (reconnect with a pump running, external mode switch, ticks). config_change_state_inventory: the facade keeps no remembered mode. Device changes arrive as misaligned 2-byte words and refresh segments. Session 5: device_change_reaches_the_facade_whatever_happened_before (the notification walk keeps no memory); real-facade histories in which a client callback watching a pump or blower fails once - everything afterwards must still switch the table. A run on the virtual loop in which nothing is runnable and no timer is pending is reported as a verdict (Deadlock), not a hung check. sleepers_share_the_current_future: over the regenerated skeleton of config_sleep the shared future is replaced only when absent or resolved, and the wait on it is the last thing the coroutine does.',
     note='Partial: the timing clauses are theorems about the tick model (time = integer milliseconds of the virtual clock); real '
          'timer skew of an event loop is outside, the jittered runs only bound it. Assumed: asyncio.wait(timeout=) semantics, one '
          'event loop (the module-level future is foreign to a second loop), cancellation delivered at the next suspension point. '
